@@ -23,7 +23,7 @@ from mc.models import bcif_codec as M
 ID = "C05"
 LEVEL = "model_checking"
 EXHAUSTIVE = True
-SHARD_TIMEOUT = {"quick": 240, "thorough": 900}
+SHARD_TIMEOUT = {"quick": 600, "thorough": 3000}  # wall seconds; the box is shared, CPU limits do the real work
 RULE = (
     "Every (array, chain) pair of the listed finite spaces is executed twice on the real code: encode_stepwise/"
     "decode_stepwise, and BinaryCIFData.serialize -> msgpack -> BinaryCIFData.deserialize (plus encoding equality "
@@ -37,7 +37,8 @@ RULE = (
     "<=1(2) on float32/float64 arrays over a palette relative to the step; 'floatba' = ByteArray(auto/float32/"
     "float64) on float arrays; 'string' = StringArray with every pair of listed data/offset chains and given/"
     "derived string tables on every string array of length <=4(5) over 6 strings; 'compress' = compress() on "
-    "every integer/float/string array at each tolerance, then file representation round trip; 'file' = columns "
+    "every integer/float/string array at each tolerance (plus the listed column-like arrays of length 8/32/100: "
+    "constants, ramps, alternations, runs), then file representation round trip; 'file' = columns "
     "with every mask over {0,1,2}^n, wrapped in category/block/file, written, read back, compared with == and "
     "array-wise, also after compress() at each container level. A case counts as non-trivial when the array is "
     "non-empty and the oracle either compared a decoded non-empty array element-wise with the original or "
@@ -59,8 +60,10 @@ ASSUMPTIONS = [
     "== is defined through numpy.array_equal",
     "cases whose IntegerPacking output would exceed %d elements are not executed in the product groups "
     "(counted as skipped_pack_cap); +-2^31-scale packing is covered by the 'ipbig' group" % M.PACK_CAP,
-    "arrays containing magnitudes below 1e-290 (float32: 1e-30) are passed to compress() only in the listed "
-    "'tiny' arrays of length 2, each in a forked child with a time limit",
+    "float arrays for which the decimal places demanded by the tolerance cannot be formed in the array's own "
+    "float type (-log10(min|x|*tol) + log10(max|x|) + 2 > log10(finfo.max)) are passed to compress() only in "
+    "the listed 'range' arrays (counted as skipped_beyond_float_range_unlisted otherwise); every compress() call "
+    "runs under a CPU-time limit of 0.5 s",
 ]
 
 I8, I16, I32, U8, U16, U32, F32, F64 = 1, 2, 3, 4, 5, 6, 32, 33
@@ -257,7 +260,7 @@ def run_paths(arr, chain, allow_big=False):
         d = pdbx.BinaryCIFData(arr, encs)
         ser = d.serialize()
     except Exception as e:  # noqa: BLE001
-        return direct, ("exc", "serialize", type(e).__name__), None
+        return direct, ("exc", "encode", type(e).__name__), None
     try:
         packed = msgpack.packb(ser, use_bin_type=True, default=env["encode_numpy"])
     except Exception as e:  # noqa: BLE001
@@ -265,7 +268,7 @@ def run_paths(arr, chain, allow_big=False):
     try:
         d2 = pdbx.BinaryCIFData.deserialize(msgpack.unpackb(packed, use_list=True, raw=False))
     except Exception as e:  # noqa: BLE001
-        return direct, ("exc", "deserialize", type(e).__name__), packed
+        return direct, ("exc", "decode", type(e).__name__), packed
     try:
         eq = bool(d2.encoding == d.encoding)
     except Exception:  # noqa: BLE001
@@ -319,16 +322,25 @@ def culprit(chain, v):
     return chain_sig(chain)
 
 
+def report(ctx, case, fails):
+    """fails: list of (path, site, mode, input class, what, expected, observed).  The same failure on
+    both observation paths is one violation ('both'); otherwise the path is part of the signature."""
+    if len(fails) == 2 and fails[0][1:4] == fails[1][1:4]:
+        fails = [("both",) + fails[0][1:]]
+    for path, site, mode, cls, what, exp, obs in fails:
+        ctx.violation("%s|%s_%s|%s" % (site, path, mode, cls), what, case, expected=exp, observed=obs)
+
+
 def judge_int(ctx, case, vals, dtype, chain, v, direct, filed):
-    """Shared by the integer groups and by the index/offset level of string arrays."""
     compared = refused = False
+    fails = []
     for path, res in (("direct", direct), ("file", filed)):
         if res[0] == "exc":
             if v.cls == "accept":
-                ctx.violation("%s|%s_%s_raised_%s|%s" % (culprit(chain, v), path, res[1], res[2],
-                                                       int_features(vals, dtype, v)),
+                fails.append((path, culprit(chain, v), "%s_raised_%s" % (res[1], res[2]),
+                              int_features(vals, dtype, v),
                               "round trip of representable values raised %s in %s" % (res[2], res[1]),
-                              case, expected=vals, observed=list(res))
+                              vals, list(res)))
             else:
                 refused = True
             continue
@@ -336,23 +348,22 @@ def judge_int(ctx, case, vals, dtype, chain, v, direct, filed):
         if got == vals:
             compared = True
             if path == "file" and not res[2] and v.cls == "accept":
-                ctx.violation("%s|file_encoding_not_equal_after_read|%s" % (chain_sig(chain),
-                                                                          int_features(vals, dtype, v)),
-                              "deserialised encodings differ from the written ones", case)
+                fails.append((path, chain_sig(chain), "encoding_not_equal_after_read", int_features(vals, dtype, v),
+                              "deserialised encodings differ from the written ones", None, None))
             continue
         shown = got if got is not None else repr(res[1])[:200]
         if v.cls == "accept":
-            ctx.violation("%s|%s_wrong_value|%s" % (culprit(chain, v), path, int_features(vals, dtype, v)),
-                          "round trip of representable values returned a different array", case,
-                          expected=vals, observed=shown)
+            fails.append((path, culprit(chain, v), "wrong_value", int_features(vals, dtype, v),
+                          "round trip of representable values returned a different array", vals, shown))
         elif v.cls == "refuse_or_exact":
-            ctx.violation("%s|%s_silently_altered|%s,%s" % (v.stage, path, v.reason, dtype),
-                          "value the representation cannot hold was neither refused nor kept", case,
-                          expected="exception or %r" % (vals,), observed=shown)
+            fails.append((path, v.stage, "silently_altered", "%s,%s" % (v.reason, dtype),
+                          "value the representation cannot hold was neither refused nor kept",
+                          "exception or %r" % (vals,), shown))
         else:
-            ctx.violation("%s|%s_wrong_value|%s,%s" % (v.stage, path, v.reason, dtype),
-                          "unspecified input returned a different array instead of an error", case,
-                          expected="exception or %r" % (vals,), observed=shown)
+            fails.append((path, v.stage, "wrong_value", "%s,%s" % (v.reason, dtype),
+                          "unspecified input returned a different array instead of an error",
+                          "exception or %r" % (vals,), shown))
+    report(ctx, case, fails)
     return compared, refused
 
 
@@ -457,14 +468,17 @@ def run_int_shard(shard, ctx):
             for ch in single_variants(len(vals), vals[0] if vals else 0, dtype):
                 int_case(ctx, dtype, vals, ch, g)
     elif g == "chain":
-        lengths = (2, 3) if tier == "quick" else (2, 3, 4)
-        chains = [c + [B()] for c in all_chains(lengths)]
+        chains = [c + [B()] for c in all_chains((2, 3))]
+        chains4 = [c + [B()] for c in all_chains((4,))] if tier == "thorough" else []
         for vals in chain_arrays(dtype, tier, seed):
             idx += 1
             if idx % parts != part:
                 continue
             for ch in chains:
                 int_case(ctx, dtype, vals, ch, g)
+            if len(vals) <= 3:
+                for ch in chains4:
+                    int_case(ctx, dtype, vals, ch, g)
     elif g == "ipbig":
         lo, hi = M.DTYPE_RANGE[dtype]
         pal = [x for x in IPBIG_VALUES if lo <= x <= hi]
@@ -604,15 +618,13 @@ def float_case(ctx, dtype, xs, chain, group):
         stage = "IntervalQuantization"
     # verdict
     v = M.Verdict()
+    dv = None
     for c, name in (("nan", "nan"), ("inf", "infinite"), ("overflow", "product_exceeds_int32")):
         if c in elem_cls:
             v.problem(stage, name)
             break
-    if v.cls == "accept":
-        if "border" in elem_cls:
-            v.either(stage, "product_at_int32_limit")
-        elif "free" in elem_cls and all(c == "free" for c in elem_cls):
-            pass
+    if v.cls == "accept" and "border" in elem_cls:
+        v.either(stage, "product_at_int32_limit")
     if v.cls != "refuse_or_exact":
         dv = M.int_chain(ints, I32, chain[1:])
         if dv.cls == "skip":
@@ -642,46 +654,58 @@ def float_case(ctx, dtype, xs, chain, group):
         ctx.count("skipped_pack_cap_observed")
         return
     compared = refused = False
+    fails = []
+    head_name = KIND_NAME[head]
+
+    def site():
+        # attribution of a failure on representable input: the integer tail alone, if it is to blame
+        if dv is not None and dv.cls == "accept":
+            c = culprit(chain[1:], dv)
+            if c != chain_sig(chain[1:]):
+                return c
+        return chain_sig(chain)
+
     for path, res in (("direct", direct), ("file", filed)):
         if res[0] == "exc":
             if v.cls == "accept":
-                ctx.violation("%s|%s_%s_raised_%s|%s" % (chain_sig(chain), path, res[1], res[2],
-                                                       "empty" if not xs else "representable"),
-                              "round trip of representable floats raised %s in %s" % (res[2], res[1]), case,
-                              expected="within tolerance", observed=list(res))
+                fails.append((path, site(), "%s_raised_%s" % (res[1], res[2]),
+                              int_features(ints, dtype, dv) if site() != chain_sig(chain) else
+                              ("empty" if not xs else dtype),
+                              "round trip of representable floats raised %s in %s" % (res[2], res[1]),
+                              "within tolerance", list(res)))
             else:
                 refused = True
             continue
         got = as_float_list(res[1])
         if got is None or len(got) != len(xs):
-            ctx.violation("%s|%s_wrong_shape_or_dtype|%s" % (chain_sig(chain), path, v.cls),
-                          "decoded array has a different length or is not floating point", case,
-                          expected=enc_floats(xs), observed=repr(res[1])[:200])
+            fails.append((path, chain_sig(chain), "wrong_shape_or_dtype", v.cls,
+                          "decoded array has a different length or is not floating point",
+                          enc_floats(xs), repr(res[1])[:200]))
             continue
         bad = judge_elements(xs, got, elem_cls, tol)
         if not bad:
             compared = True
             if path == "file" and not res[2] and v.cls == "accept":
-                ctx.violation("%s|file_encoding_not_equal_after_read|float" % chain_sig(chain),
-                              "deserialised encodings differ from the written ones", case)
+                fails.append((path, chain_sig(chain), "encoding_not_equal_after_read", dtype,
+                              "deserialised encodings differ from the written ones", None, None))
             continue
         i, c = bad[0]
-        if c in ("nan", "inf", "overflow"):
-            name = {"nan": "nan", "inf": "infinite", "overflow": "product_exceeds_int32"}[c]
-            ctx.violation("%s|%s_silently_altered|%s" % (stage, path, name),
+        if c in ("nan", "inf", "overflow", "border"):
+            name = {"nan": "nan", "inf": "infinite", "overflow": "product_exceeds_int32",
+                    "border": "product_exceeds_int32"}[c]
+            fails.append((path, head_name, "silently_altered", "%s,%s" % (name, dtype),
                           "float the fixed-point/bin representation cannot hold was neither refused nor kept",
-                          case, expected="exception or element %d preserved" % i, observed=enc_floats(got))
-        elif v.cls == "accept" or c == "ok":
-            ctx.violation("%s|%s_outside_tolerance|%s" % (chain_sig(chain), path,
-                                                        "other_element_not_representable" if v.cls != "accept"
-                                                        else "representable"),
-                          "decoded float differs from the original by more than the stated precision", case,
-                          expected={"x": enc_floats(xs), "tolerance": tol(xs[i], got[i]), "index": i},
-                          observed=enc_floats(got))
+                          "exception or element %d preserved" % i, enc_floats(got)))
+        elif v.cls == "accept":
+            fails.append((path, site(), "outside_tolerance", dtype,
+                          "decoded float differs from the original by more than the stated precision",
+                          {"x": enc_floats(xs), "tolerance": tol(xs[i], got[i]), "index": i}, enc_floats(got)))
         else:
-            ctx.violation("%s|%s_wrong_value|%s" % (stage, path, v.reason),
-                          "unspecified input returned a value outside the tolerance instead of an error", case,
-                          expected=enc_floats(xs), observed=enc_floats(got))
+            # a representable element is wrong although another element / a later stage allowed refusal
+            fails.append((path, head_name, "representable_element_outside_tolerance", "%s,%s" % (v.reason, dtype),
+                          "a representable element came back outside the tolerance", 
+                          {"x": enc_floats(xs), "tolerance": tol(xs[i], got[i]), "index": i}, enc_floats(got)))
+    report(ctx, case, fails)
     ctx.count({"accept": "accepted", "refuse_or_exact": "refusable", "either": "unspecified"}[v.cls])
     if "free" in elem_cls:
         ctx.count("iq_outside_interval_not_judged")
@@ -721,21 +745,29 @@ def run_float_shard(shard, ctx):
         f = shard["factor"]
         pal, core = fixed_palette(f, dtype, seed)
         if tier == "quick":
-            arrs = itertools.chain(products(pal, (0, 1, 2)), products(core, (3,)))
+            wide = list(uniq_arrays(itertools.chain(products(pal, (0, 1, 2)), products(core, (3,))), dtype))
+            deep = wide if f == 1000 else []
+            deep_src = (None,)
         else:
-            arrs = itertools.chain(products(pal, (0, 1, 2, 3)), products(core, (4,)))
+            wide = list(uniq_arrays(itertools.chain(products(pal, (0, 1, 2, 3)), products(core, (4,))), dtype))
+            deep = list(uniq_arrays(itertools.chain(products(pal, (0, 1, 2)), products(core, (3,))), dtype))
+            deep_src = (None, F32, F64)
         tails1 = int_tails(1)
         tails2 = [t for t in int_tails(2) if len(t) == 3]
-        for xs in uniq_arrays(arrs, dtype):
+        for xs in wide:
             idx += 1
             if idx % parts != part:
                 continue
             for st in (None, F32, F64):
                 for t in tails1:
                     float_case(ctx, dtype, xs, [F(f, st)] + t, g)
-                if tier == "thorough" or (st is None and f == 1000):
-                    for t in tails2:
-                        float_case(ctx, dtype, xs, [F(f, st)] + t, g)
+        for xs in deep:
+            idx += 1
+            if idx % parts != part:
+                continue
+            for st in deep_src:
+                for t in tails2:
+                    float_case(ctx, dtype, xs, [F(f, st)] + t, g)
     elif g == "iq":
         setting = IQ_SETTINGS[shard["setting"]]
         pal = iq_palette(setting, seed)
@@ -795,11 +827,12 @@ def floatba_case(ctx, dtype, xs, t):
     arr = np.array(xs, dtype=dtype)
     direct, filed, packed = run_paths(arr, chain)
     compared = refused = False
+    fails = []
     for path, res in (("direct", direct), ("file", filed)):
         if res[0] == "exc":
             if v.cls == "accept":
-                ctx.violation("B|%s_%s_raised_%s|float" % (path, res[1], res[2]),
-                              "ByteArray round trip of floats raised", case, observed=list(res))
+                fails.append((path, "ByteArray", "%s_raised_%s" % (res[1], res[2]), dtype,
+                              "ByteArray round trip of floats raised", enc_floats(xs), list(res)))
             else:
                 refused = True
             continue
@@ -819,15 +852,19 @@ def floatba_case(ctx, dtype, xs, t):
                     break
         if ok:
             compared = True
+            if path == "file" and not res[2]:
+                fails.append((path, "ByteArray", "encoding_not_equal_after_read", dtype,
+                              "deserialised encodings differ from the written ones", None, None))
             continue
         if badc == "overflow":
-            ctx.violation("ByteArray|%s_silently_altered|float64_exceeds_float32_range" % path,
-                          "float64 beyond the float32 range was stored as float32 without an error", case,
-                          expected="exception or %r" % (enc_floats(xs),), observed=enc_floats(got or []))
+            fails.append((path, "ByteArray", "silently_altered", "float64_exceeds_float32_range",
+                          "float64 beyond the float32 range was stored as float32 without an error",
+                          "exception or %r" % (enc_floats(xs),), enc_floats(got or [])))
         else:
-            ctx.violation("B|%s_wrong_value|float_%s" % (path, badc or "shape"),
-                          "ByteArray round trip of floats is not bit-exact", case, expected=enc_floats(xs),
-                          observed=enc_floats(got) if got is not None else repr(res[1])[:200])
+            fails.append((path, "ByteArray", "wrong_value", "%s,%s" % (badc or "shape", dtype),
+                          "ByteArray round trip of floats is not bit-exact", enc_floats(xs),
+                          enc_floats(got) if got is not None else repr(res[1])[:200]))
+    report(ctx, case, fails)
     ctx.count({"accept": "accepted", "refuse_or_exact": "refusable", "either": "unspecified"}[v.cls])
     if refused:
         ctx.count("refused_observed")
@@ -884,7 +921,7 @@ def string_case(ctx, strs, table_kind, dname, oname, pal):
     dchain = STR_CHAINS[dname] or [B(I32)]
     ochain = STR_CHAINS[oname] or [B(I32)]
     vd = M.int_chain(idx, I32, dchain)
-    vo = M.int_chain(offs, I32, ochain)
+    vo = M.int_chain(offs, I32, ochain, np_range=M.DTYPE_RANGE["int64"], np_name="int64")
     if missing:
         vd = M.Verdict()
         vd.problem("StringArray", "string_not_in_given_table")
@@ -904,13 +941,13 @@ def string_case(ctx, strs, table_kind, dname, oname, pal):
     arr = np.array(strs, dtype="U%d" % width)
     direct, filed, packed = run_paths(arr, [spec])
     compared = refused = False
+    fails = []
+    tag = "StringArray[%s;%s]" % (chain_sig(dchain), chain_sig(ochain))
     for path, res, v in (("direct", direct, vd), ("file", filed, vf)):
-        tag = "SA[%s;%s]" % (chain_sig(dchain), chain_sig(ochain))
         if res[0] == "exc":
             if v.cls == "accept":
-                ctx.violation("%s|%s_%s_raised_%s|%s" % (tag, path, res[1], res[2], "empty" if not strs else
-                                                       table_kind),
-                              "string array round trip raised", case, expected=strs, observed=list(res))
+                fails.append((path, tag, "%s_raised_%s" % (res[1], res[2]), "empty" if not strs else table_kind,
+                              "string array round trip raised", strs, list(res)))
             else:
                 refused = True
             continue
@@ -919,18 +956,19 @@ def string_case(ctx, strs, table_kind, dname, oname, pal):
         if got == strs:
             compared = True
             if path == "file" and not res[2] and v.cls == "accept":
-                ctx.violation("%s|file_encoding_not_equal_after_read|%s" % (tag, table_kind),
-                              "deserialised StringArrayEncoding differs from the written one", case)
+                fails.append((path, tag, "encoding_not_equal_after_read", table_kind,
+                              "deserialised StringArrayEncoding differs from the written one", None, None))
             continue
+        shown = got if got is not None else repr(a)[:200]
         if v.cls == "accept":
-            ctx.violation("%s|%s_wrong_value|%s" % (tag, path, table_kind),
-                          "string array came back different", case, expected=strs,
-                          observed=got if got is not None else repr(a)[:200])
+            fails.append((path, tag, "wrong_value", "empty" if not strs else table_kind,
+                          "string array came back different", strs, shown))
         else:
-            ctx.violation("%s|%s_%s|%s" % (v.stage, path, "silently_altered" if v.cls == "refuse_or_exact" else
-                                          "wrong_value", v.reason + "(string_%s)" % ("index" if v is vd else "offset")),
-                          "string array altered where a stage cannot hold its indices/offsets", case,
-                          expected="exception or %r" % (strs,), observed=got if got is not None else repr(a)[:200])
+            fails.append((path, v.stage, "silently_altered" if v.cls == "refuse_or_exact" else "wrong_value",
+                          "%s,string_%s" % (v.reason, "indices" if v is vd else "offsets"),
+                          "string array altered where a stage cannot hold its indices/offsets",
+                          "exception or %r" % (strs,), shown))
+    report(ctx, case, fails)
     ctx.count({"accept": "accepted", "refuse_or_exact": "refusable", "either": "unspecified"}[vf.cls])
     if refused:
         ctx.count("refused_observed")
@@ -986,8 +1024,55 @@ def compress_roundtrip(arr, tol):
     return ("ok", d2.array, [type(e).__name__.replace("Encoding", "") for e in c.encoding], len(packed))
 
 
-def tiny_limit(dtype):
-    return 1e-30 if dtype == "float32" else 1e-290
+class _CpuLimit(BaseException):
+    """Raised by the CPU-time watchdog; BaseException so that no `except Exception` absorbs it."""
+
+
+def _on_vtalrm(signum, frame):
+    raise _CpuLimit()
+
+
+def with_cpu_limit(seconds, fn, *args):
+    """Run fn(*args) with a limit on the *CPU* time of this process (the box is shared, wall time
+    means little).  Interrupts Python-level loops; a loop inside compiled code is left to the
+    shard time-out.  Returns ('ok', value) or ('cpu_limit',)."""
+    import signal
+
+    old = signal.signal(signal.SIGVTALRM, _on_vtalrm)
+    try:
+        signal.setitimer(signal.ITIMER_VIRTUAL, seconds)
+        try:
+            val = fn(*args)
+        finally:
+            signal.setitimer(signal.ITIMER_VIRTUAL, 0)
+        return ("ok", val)
+    except _CpuLimit:
+        return ("cpu_limit",)
+    finally:
+        signal.signal(signal.SIGVTALRM, old)
+
+
+CPU_LIMIT = 0.5  # seconds of CPU for one compress() + write + read (measured: 0.3 - 3 ms)
+FMAX_LOG10 = {"float32": 38.5, "float64": 308.2}
+
+
+def float_span(xs, tol, dtype):
+    """(decimal places needed for the smallest magnitude, log10 of largest magnitude), both rough."""
+    nz = [abs(x) for x in xs if x == x and x != 0 and abs(x) != math.inf]
+    if not nz:
+        return None
+    d = -math.log10(min(nz)) - math.log10(tol)
+    return d, math.log10(max(nz))
+
+
+def beyond_float_range(xs, tol, dtype):
+    """The decimal places the tolerance asks for cannot be formed in the array's own float type
+    (10**d or x*10**d is not finite there).  Such arrays are enumerated in the 'range' list only."""
+    sp = float_span(xs, tol, dtype)
+    if sp is None or len(xs) < 2:
+        return False
+    d, top = sp
+    return d + max(0.0, top) + 2 > FMAX_LOG10[dtype]
 
 
 def compress_float_verdict(xs, tol, dtype):
@@ -1006,88 +1091,94 @@ def compress_float_verdict(xs, tol, dtype):
     nz = [abs(x) for x in xs if x != 0]
     if not nz or len(xs) == 1:
         return v
-    need = max(nz) / (min(nz) * tol)
-    if need * 100 < 2**31:
+    need = math.log10(max(nz)) - math.log10(min(nz)) - math.log10(tol)
+    lim = math.log10(2**31)
+    if need + 2 < lim:
         return v
-    if need > 2**31 * 100:
+    if need - 2 > lim:
         v.problem("compress", "dynamic_range_exceeds_int32")
     else:
-        v.either("compress", "dynamic_range_near_int32")
+        v.either("compress", "dynamic_range_exceeds_int32")
     return v
 
 
-def compress_case(ctx, kind, dtype, vals, tol, isolated=False):
+def compress_case(ctx, kind, dtype, vals, tol, listed=False):
     case = {"k": "compress", "kind": kind, "dtype": dtype,
-            "vals": enc_floats(vals) if kind == "float" else vals, "tol": tol, "isolated": isolated}
-    if not ctx.journal(case):
-        return
+            "vals": enc_floats(vals) if kind == "float" else vals, "tol": tol}
     if kind == "float":
+        if not listed and beyond_float_range(vals, tol, dtype):
+            ctx.count("skipped_beyond_float_range_unlisted")
+            return
         arr = np.array(vals, dtype=dtype)
         v = compress_float_verdict(vals, tol, dtype)
+        sp = float_span(vals, tol, dtype)
+        icls = dtype + (",needs_20_or_more_decimal_places" if sp and len(vals) > 1 and sp[0] >= 19.5 else "")
     elif kind == "int":
         arr = np.array(vals, dtype=dtype)
         v = M.Verdict()
+        icls = dtype
         if not vals:
             v.either("compress", "empty")
         elif not (M.fits(vals, I32) or M.fits(vals, U32)):
             v.problem("compress", "integer_exceeds_32_bit")
+        elif not M.fits(vals, M.DTYPE_TC[dtype]):
+            # representable, but not in the type the format offers for this dtype by default
+            # (a single value is documented to keep the default encoding)
+            v.either("compress", "needs_other_32_bit_type_than_dtype_default")
     else:
         arr = np.array(vals, dtype="U%d" % max([len(s) for s in vals] + [1]))
         v = M.Verdict()
+        icls = "str"
         if not vals:
             v.either("compress", "empty")
-    if isolated:
-        r = ctx.isolated(compress_roundtrip, arr, tol, timeout=3.0)
-        if r[0] == "ok":
-            res = r[1]
-        elif r[0] == "timeout":
-            ctx.violation("compress|did_not_terminate|float_magnitude_below_1e-290(f32:1e-30)",
-                          "compress() did not return within 3 s (typical: 0.5 ms)", case,
-                          expected="result within tolerance or exception", observed="timeout")
-            ctx.ev(1, 1)
-            ctx.count("refusable" if v.cls == "refuse_or_exact" else "accepted")
-            ctx.outcome("timeout")
-            return
-        else:
-            ctx.violation("compress|process_%s|float_magnitude_below_1e-290(f32:1e-30)" % r[0],
-                          "compress() terminated the process", case, observed=list(r))
-            ctx.ev(1, 1)
-            return
-    else:
-        res = compress_roundtrip(arr, tol)
+    if not ctx.journal(case):
+        return
+    r = with_cpu_limit(CPU_LIMIT, compress_roundtrip, arr, tol)
+    if r[0] != "ok":
+        ctx.violation("compress|did_not_terminate|%s" % ("decimal_places_beyond_float_range" if kind == "float" and
+                                                        beyond_float_range(vals, tol, dtype) else icls),
+                      "compress() used more than %.1f s CPU without returning (typical: 1 ms)" % CPU_LIMIT, case,
+                      expected="result within tolerance or exception", observed="cpu limit")
+        ctx.ev(1, 1)
+        ctx.count({"accept": "accepted", "refuse_or_exact": "refusable", "either": "unspecified"}[v.cls])
+        ctx.outcome("cpu_limit")
+        return
+    res = r[1]
     compared = refused = False
+    if res[0] == "ok":
+        ctx.count("compress_chose:" + "+".join(res[2]))
     if res[0] == "exc":
         if v.cls == "accept":
-            ctx.violation("compress|%s_raised_%s|%s" % (res[1], res[2], kind),
+            ctx.violation("compress|%s_raised_%s|%s" % (res[1], res[2], icls),
                           "compress() / write / read of a representable array raised", case,
                           expected="array back", observed=list(res))
         else:
             refused = True
     else:
         a = res[1]
+        mode = {"accept": "wrong_value", "refuse_or_exact": "silently_altered", "either": "wrong_value"}[v.cls]
+        cls = icls if v.cls == "accept" else "%s,%s" % (v.reason, dtype)
         if kind == "int":
             got = as_int_list(a)
             if got == vals:
                 compared = True
             else:
-                sig = ("compress|wrong_value|int" if v.cls == "accept" else
-                       "compress|%s|%s" % ("silently_altered" if v.cls == "refuse_or_exact" else "wrong_value",
-                                           v.reason))
-                ctx.violation(sig, "compressed integer column reads back different", case, expected=vals,
+                ctx.violation("compress|%s|%s" % (mode, cls), "compressed integer column reads back different",
+                              case, expected=vals,
                               observed={"array": got if got is not None else repr(a)[:200], "encoding": res[2]})
         elif kind == "str":
             got = a.tolist() if isinstance(a, np.ndarray) and a.dtype.kind == "U" else None
             if got == vals:
                 compared = True
             else:
-                ctx.violation("compress|wrong_value|str" if v.cls == "accept" else "compress|wrong_value|empty",
-                              "compressed string column reads back different", case, expected=vals,
+                ctx.violation("compress|%s|%s" % (mode, cls), "compressed string column reads back different",
+                              case, expected=vals,
                               observed={"array": got if got is not None else repr(a)[:200], "encoding": res[2]})
         else:
             got = as_float_list(a)
             tc = M.DTYPE_TC[dtype]
             if got is None or len(got) != len(vals):
-                ctx.violation("compress|wrong_shape_or_dtype|float", "compressed float column changed shape/kind",
+                ctx.violation("compress|wrong_shape_or_dtype|%s" % dtype, "compressed float column changed shape/kind",
                               case, expected=enc_floats(vals), observed=repr(a)[:200])
             else:
                 bad = None
@@ -1108,13 +1199,11 @@ def compress_case(ctx, kind, dtype, vals, tol, isolated=False):
                 else:
                     i, c = bad
                     if v.cls == "accept":
-                        sig = "compress|outside_tolerance|float_%s" % c
-                    elif c in ("nan", "infinite"):
-                        sig = "compress|silently_altered|%s" % c
-                    elif v.cls == "refuse_or_exact":
-                        sig = "compress|silently_altered|%s(%s element)" % (v.reason, c)
+                        sig = "compress|outside_tolerance|%s,%s_element" % (icls, c)
                     else:
-                        sig = "compress|wrong_value|%s" % v.reason
+                        # one class per reason the model gives for the array (nan / infinite member,
+                        # dynamic range), whichever element shows the damage first
+                        sig = "compress|silently_altered|%s,%s" % (v.reason, dtype)
                     ctx.violation(sig, "compressed float column reads back outside the tolerance / altered", case,
                                   expected={"x": enc_floats(vals), "tol": tol, "index": i},
                                   observed={"array": enc_floats(got), "encoding": res[2]})
@@ -1128,10 +1217,53 @@ def compress_case(ctx, kind, dtype, vals, tol, isolated=False):
         ctx.sample({**case, "chosen_encoding": res[2]})
 
 
+def long_arrays(seed):
+    """Column-like arrays (length 8/32/100) on which compress() actually prefers Delta / RunLength /
+    IntegerPacking chains: constants, ramps, alternations, runs, saw-teeth at the dtype boundaries.
+    Yields (kind, dtype, values)."""
+    for L in (8, 32, 100):
+        for dtype in INT_DTYPES:
+            lo, hi = M.DTYPE_RANGE[dtype]
+            lo32, hi32 = max(lo, -(2**31)), min(hi, 2**32 - 1 if lo == 0 else 2**31 - 1)
+            mid = SEED_MID[seed % 5] if hi > 255 else 100
+            for c in sorted({lo32, 0, mid, hi32}):
+                yield "int", dtype, [c] * L
+            for start, step in ((lo32, 1), (hi32 - L + 1, 1), (hi32, -1), (0, 1), (0, 2), (mid, 0)):
+                vals = [start + i * step for i in range(L)]
+                if step and lo <= min(vals) and max(vals) <= hi:
+                    yield "int", dtype, vals
+            yield "int", dtype, [lo32 if i % 2 else hi32 for i in range(L)]
+            yield "int", dtype, [0 if i % 2 else 1 for i in range(L)]
+            yield "int", dtype, [mid] * (L // 2) + [0] * (L - L // 2)
+            yield "int", dtype, [hi32] * (L // 4) + [lo32] * (L // 4) + list(range(L - 2 * (L // 4)))
+            yield "int", dtype, [(i * 37) % (mid + 1) for i in range(L)]
+            if hi >= 2**32:
+                yield "int", dtype, [hi] + [0] * (L - 1)
+        base = SEED_FLOAT[seed % 5]
+        for dtype in ("float32", "float64"):
+            yield "float", dtype, [i * 0.001 for i in range(L)]
+            yield "float", dtype, [base] * L
+            yield "float", dtype, [base + i * 0.5 for i in range(L)]
+            yield "float", dtype, [-base if i % 2 else base for i in range(L)]
+            yield "float", dtype, [float(i) for i in range(L)]
+            yield "float", dtype, [base + i * 0.5 for i in range(L - 1)] + [math.nan]
+            yield "float", dtype, [0.0] * (L - 1) + [math.inf]
+            yield "float", dtype, [1e-3 * i for i in range(L - 1)] + [3e9]
+        ch = SEED_CHAR[seed % 5]
+        yield "str", "str", ["s%02d" % i for i in range(L)]
+        yield "str", "str", ["x" * i for i in range(L)]
+        yield "str", "str", ["a"] * L
+        yield "str", "str", ["a" if i % 2 else ch for i in range(L)]
+        yield "str", "str", ["ab"] * (L // 2) + [""] * (L - L // 2)
+        yield "str", "str", [ch * (i % 5) + "k%d" % (i // 3) for i in range(L)]
+        yield "str", "str", ["x" * SEED_LONG[seed % 5]] + ["y%d" % i for i in range(L - 1)]
+
+
 TINY_PARTNERS = [None, 0.0, 1.0, math.nan]
 
 
-def tiny_arrays(dtype):
+def range_arrays(dtype):
+    """The listed arrays whose required decimal places leave the float type's own range."""
     t = 5e-324 if dtype == "float64" else 1e-45
     out = []
     for p in TINY_PARTNERS:
@@ -1140,6 +1272,10 @@ def tiny_arrays(dtype):
         else:
             out.append([t, p])
             out.append([p, t])
+    if dtype == "float32":
+        out += [[1e-30, 1234.5678], [1e30, 1e-3], [1e30, 1.0, 1e-30]]
+    else:
+        out += [[1e-300, 1e10], [1e300, 1e-3, 1e-10]]
     return out
 
 
@@ -1171,15 +1307,26 @@ def run_compress_shard(shard, ctx):
                 continue
             for tol in TOLS[dtype]:
                 compress_case(ctx, "float", dtype, xs, tol)
-    elif kind == "tiny":
-        arrs = list(uniq_arrays(tiny_arrays(dtype), dtype))
+    elif kind == "range":
+        arrs = list(uniq_arrays(range_arrays(dtype), dtype))
         tols = [1e-6] if tier == "quick" else TOLS[dtype]
         for xs in arrs:
             for tol in tols:
                 idx += 1
                 if idx % parts != part:
                     continue
-                compress_case(ctx, "float", dtype, xs, tol, isolated=True)
+                compress_case(ctx, "float", dtype, xs, tol, listed=True)
+    elif kind == "long":
+        for k, dt, vals in long_arrays(seed):
+            idx += 1
+            if idx % parts != part:
+                continue
+            if k == "float":
+                vals = canon_floats(vals, dt)
+                for tol in TOLS[dt]:
+                    compress_case(ctx, k, dt, vals, tol)
+            else:
+                compress_case(ctx, k, dt, vals, 1e-6)
     elif kind == "str":
         pal = string_palette(seed)
         for strs in products(pal, range(0, (4 if tier == "quick" else 5) + 1)):
@@ -1197,7 +1344,7 @@ COL_DATA = {
     "int_default": ("int", [3, -1, 70000, 3], None),
     "int_chain": ("int", [3, -1, 70000, 3], [D(), R(), P(2), B()]),
     "uint8": ("int", [0, 255, 7, 7], [R(), B()]),
-    "float_bytes": ("float", [1.5, -0.0, 1234.5678, 1e30], None),
+    "float_bytes": ("float", [1.5, -0.0, 1234.5678, 100.25], None),
     "float_nan": ("float", [1.5, math.nan, math.inf, 0.0], None),
     "float_fixed": ("float", [1.5, 0.25, 1234.5, -3.0], [F(100), D(), P(2), B()]),
     "str_default": ("str", ["a", "", "é b", "a"], None),
@@ -1333,7 +1480,7 @@ def file_case(ctx, dname, n, mask, mname, level, do_compress):
     ok_other = as_int_list(gother) == list(range(n)) and rc == n
     where = "%s,%s,%s" % (kind, cpl, level)
     if not ok_data:
-        ctx.violation("file|data_differs|%s" % where, "column data read back different", case,
+        ctx.violation("file|data_differs|%s,%s" % (dname, cpl), "column data read back different", case,
                       expected=enc_floats(vals) if kind == "float" else vals, observed=repr(garr)[:200])
     if not ok_mask:
         ctx.violation("file|mask_differs|%s,%s" % (where, mname), "column mask read back different", case,
@@ -1464,12 +1611,15 @@ def bounds(tier):
         "int_palette_sizes_full": {d: len(full_palette(d)) for d in INT_DTYPES},
         "ba_array_len": "0..3" if q else "0..4",
         "single_array_len": "full 0..2, core 3, patterns 4" if q else "full 0..3, core 4, patterns 5-6",
-        "single_stage_variants": "8 symbols x 7 ByteArray types + 22 explicit-parameter variants",
+        "single_stage_variants": "8 symbols x 7 ByteArray types + %d explicit-parameter variants"
+        % len(single_variants(1, 0, "int32")),
         "chain_len": "2..3" if q else "2..4",
-        "chain_arrays": "core 0..2, patterns 3-4" if q else "core 0..2, patterns 3-5",
+        "chain_arrays": "core 0..2, patterns 3-4" if q else
+        "length-2/3 chains: core 0..2, patterns 3-5; length-4 chains: core 0..2, patterns 3",
         "fixed_factors": FACTORS,
         "fixed_array_len": "palette(19) 0..2, core(6) 3" if q else "palette(19) 0..3, core(6) 4",
-        "fixed_tail_len": "<=1 (<=2 for factor 1000, src_type auto)" if q else "<=2",
+        "fixed_tail_len": "<=1 (+ length 2 for factor 1000, src_type auto)" if q else
+        "<=1 on all arrays; length 2 on palette 0..2 + core 3",
         "iq_settings": IQ_SETTINGS,
         "iq_array_len": "0..2" if q else "0..3",
         "floatba_array_len": "0..2" if q else "0..3",
@@ -1493,40 +1643,51 @@ def shards(tier, seed):
 
     weight_ba = {"int64": 8, "uint64": 2, "int32": 3, "uint32": 2}
     weight_single = {"int64": 6, "uint64": 3, "int32": 4, "uint32": 3, "int16": 3, "uint16": 2}
+    # heaviest groups first
     for d in INT_DTYPES:
-        add(weight_ba.get(d, 1) * (1 if q else 6), s="int", g="ba", dtype=d)
-        add(weight_single.get(d, 1) * (1 if q else 6), s="int", g="single", dtype=d)
-        add(6 if q else 24, s="int", g="chain", dtype=d)
+        add(6 if q else 32, s="int", g="chain", dtype=d)
+    for d in INT_DTYPES:
+        add(weight_single.get(d, 1) * (1 if q else 8), s="int", g="single", dtype=d)
+    for d in INT_DTYPES:
+        add(weight_ba.get(d, 1) * (1 if q else 8), s="int", g="ba", dtype=d)
     for d in ("int32", "int64", "uint32"):
         add(4 if q else 8, s="int", g="ipbig", dtype=d)
+    add(8 if q else 32, s="string")
     for d in ("float32", "float64"):
         for f in FACTORS:
-            add(2 if q else 12, s="float", g="fixed", dtype=d, factor=f)
+            add(2 if q else 16, s="float", g="fixed", dtype=d, factor=f)
         for i in range(len(IQ_SETTINGS)):
-            add(1 if q else 4, s="float", g="iq", dtype=d, setting=i)
+            add(1 if q else 6, s="float", g="iq", dtype=d, setting=i)
         add(1 if q else 4, s="float", g="floatba", dtype=d)
-        add(2 if q else 12, s="compress", kind="float", dtype=d)
-        add(7 if q else 14, s="compress", kind="tiny", dtype=d)
-    add(8 if q else 32, s="string")
+        add(2 if q else 16, s="compress", kind="float", dtype=d)
+        add(2 if q else 4, s="compress", kind="range", dtype=d)
     for d in INT_DTYPES:
         add({"int64": 3, "int32": 2}.get(d, 1) * (1 if q else 6), s="compress", kind="int", dtype=d)
-    add(1 if q else 4, s="compress", kind="str", dtype="str")
+    add(1 if q else 6, s="compress", kind="str", dtype="str")
+    add(2, s="compress", kind="long", dtype="all")
     for dn in COL_DATA:
         for lv in LEVELS:
             out.append({"s": "file", "data": dn, "level": lv})
     add(2 if q else 8, s="shape")
-    # heavy shards first, rotated by seed
-    order = {"int": 0, "string": 1, "float": 2, "compress": 3, "file": 4, "shape": 5}
-    out.sort(key=lambda s: (order[s["s"]], 0 if s.get("g") == "chain" else 1))
-    k = seed % max(1, len(out))
-    heavy = [s for s in out if s["s"] == "int"]
-    rest = [s for s in out if s["s"] != "int"]
-    k = seed % len(heavy)
-    return heavy[k:] + heavy[:k] + rest
+    # the seed rotates the processing order inside the leading (integer) block only
+    n_int = sum(1 for x in out if x["s"] == "int")
+    k = seed % n_int
+    return out[k:n_int] + out[:k] + out[n_int:]
 
 
 def run_shard(shard, ctx):
+    import time
+
     _enc()
+    t0 = time.process_time()
+    try:
+        _run_shard(shard, ctx)
+    finally:
+        # CPU time, not wall time: the box is shared
+        ctx.count("cpu_ms_" + (shard.get("g") or shard["s"]), int((time.process_time() - t0) * 1000))
+
+
+def _run_shard(shard, ctx):
     s = shard["s"]
     if s == "int":
         run_int_shard(shard, ctx)
@@ -1560,9 +1721,7 @@ def replay(case, ctx):
         string_case(ctx, case["strs"], case["table"], case["data"], case["offset"], string_palette(ctx.seed))
     elif k == "compress":
         vals = dec_floats(case["vals"]) if case["kind"] == "float" else case["vals"]
-        iso = case.get("isolated") or (case["kind"] == "float" and any(
-            x == x and x != 0 and abs(x) < tiny_limit(case["dtype"]) for x in vals))
-        compress_case(ctx, case["kind"], case["dtype"], vals, case["tol"], isolated=iso)
+        compress_case(ctx, case["kind"], case["dtype"], vals, case["tol"], listed=True)
     elif k == "file":
         file_case(ctx, case["data"], case["n"], case["mask"], case["menc"], case["level"], case["compress"])
     elif k == "shape":
